@@ -10,20 +10,21 @@ import (
 )
 
 type GenCfg struct {
-	Boom      bool // panicking operator boom (panics on the argument 2, identity otherwise)
-	Foreign   bool // ConstantMap constant KI of Go type int (no engine value type: arithmetic on it is a type error)
-	FailVar   bool // failing (unbound) variable e
-	Failing   bool // failing operator g
-	Custom    bool // registered operators f, p
-	H         bool // stateful operator h
-	WrongBool bool // occasionally a non-boolean operand of and/or (outside C01's domain; C10 folds around them)
-	Wrong     bool // occasionally ill-typed operands of non-and/or operators, non-bool if condition
-	Lists     bool
-	Strings   bool
-	Consts    bool // ConstantMap constants K, KT
-	Alias     bool // use operator aliases
-	MaxKids   int  // max operands of n-ary operators (>= 2)
-	ConstBias int  // percent of leaves that are constants
+	Boom       bool // panicking operator boom (panics on the argument 2, identity otherwise)
+	Foreign    bool // ConstantMap constant KI of Go type int (no engine value type: arithmetic on it is a type error)
+	FailVar    bool // failing (unbound) variable e
+	Failing    bool // failing operator g
+	Custom     bool // registered operators f, p
+	H          bool // stateful operator h
+	WrongBool  bool // occasionally a non-boolean operand of and/or (outside C01's domain; C10 folds around them)
+	Wrong      bool // occasionally ill-typed operands of non-and/or operators, non-bool if condition
+	Lists      bool
+	Strings    bool
+	OddStrings bool // also string literals with spaces / brackets (families that do not bind a text-level parser model)
+	Consts     bool // ConstantMap constants K, KT
+	Alias      bool // use operator aliases
+	MaxKids    int  // max operands of n-ary operators (>= 2)
+	ConstBias  int  // percent of leaves that are constants
 }
 
 type gen struct {
@@ -160,7 +161,10 @@ func (g *gen) leaf(typ string) (*Tree, int64) {
 			if g.r.Intn(7) == 0 {
 				// strings that print like values of another type, or like two strings (anything that keys on the
 				// printed form of an operand conflates them with those)
-				return cst([]string{"1", "3", "0", "true", "a a", "a b", "[1 2]"}[g.r.Intn(7)]), 1
+				if g.c.OddStrings {
+					return cst([]string{"1", "3", "0", "true", "a a", "a b", "[1 2]"}[g.r.Intn(7)]), 1
+				}
+				return cst([]string{"1", "3", "0", "true"}[g.r.Intn(4)]), 1
 			}
 			return cst([]string{"a", "b", ""}[g.r.Intn(3)]), 1
 		}
